@@ -223,6 +223,8 @@ def scoping_rules(chk, P, only=None, exclude=()):
             eff = (nm.split("::")[-1],) + tuple(a[1:])
         elif nm == "std::mem::replace" and a and a[0] == "self.vars":
             eff = ("replace-vars", a[1])
+        elif nm == "std::mem::take" and a and a[0] == "self.vars":
+            eff = ("replace-vars", "Default::default()")      # mem::take(x) is mem::replace(x, Default::default())
         elif nm in (PSB, "parser::expr::<impl parser::Parser>::parse_expr", "parser::stmt::<impl parser::Parser>::parse_data_row"):
             eff = (nm.split("::")[-1],)
         if eff:
@@ -267,7 +269,11 @@ def scoping_rules(chk, P, only=None, exclude=()):
     chk.require(tr is not None and [e[0] for e in tr] == ["parse_expr", "insert"] and tr[1][1] == "Parser::text(self, try(Parser::expect(self, TokenKind::Ident{})))", "PAIR", "PAIR:scoping:let-binds-after-its-rhs", "parse_expr, then insert(name)", "let arm scope trace is %s" % tr)
     tr, bbs = trace("Declare")
     rs = [r for k, v in restores.items() if "Declare" in k for r in v]
-    good = tr is not None and [e[0] for e in tr] == ["replace-vars", "parse_expr"] and tr[0][1] == "FramedSet::new()" and len(rs) == 1 and rs[0][1] == "mem::replace(self.vars, FramedSet::new())"
+    # the empty set: FramedSet::new(), or Default::default() while FramedSet's Default is the derived one (both vectors empty)
+    dflt = [x for x in P.f.all_bodies if x.name.startswith("<framed_map::FramedSet<") and x.name.endswith("as std::default::Default>::default")]
+    empties = {"FramedSet::new()"} | ({"Default::default()"} if dflt and all(x.derived for x in dflt) else set())
+    saved = {"mem::replace(self.vars, FramedSet::new())"} | ({"mem::take(self.vars)", "mem::replace(self.vars, Default::default())"} if "Default::default()" in empties else set())
+    good = tr is not None and [e[0] for e in tr] == ["replace-vars", "parse_expr"] and tr[0][1] in empties and len(rs) == 1 and rs[0][1] in saved
     if good:
         # the restore happens on every Ok path: it dominates the arm's next step (recording the declaration)
         nxt = [bb for bb, t in b.calls() if callee_name(t)[0] == "std::collections::HashMap::insert" and canon(P.call_arg_terms(b, bb)[0]) == "self.virtual_signals"]
